@@ -16,8 +16,8 @@
   * SO3, SE2, SE3: `dr_exp a = Σ_k (−1)^k ad(a)^k/(k+1)!` (HasSum, closed branch); SO3 also
     `dr_exp a = ∫₀¹ Ad(exp(−s a)) ds` and `d/dt (t·dr_exp(t a)) = Ad(exp(−t a))`.
   Not proved here (kept as `…_statement`): the Galilei analogue of the series
-  characterisation (the `calculate_r`/`S2` blocks), and the truncation bounds for
-  `dr_exp` itself (they follow from the `cos_2`/`sin_3` bounds of C02).
+  characterisation (the `calculate_r`/`S2` blocks), (truncation bounds for
+  `dr_exp` itself in the series branch: `so3_/se2_dr_exp_taylor_bound`, `se3_calculate_q_taylor_bound`).
 -/
 import SmoothProofs.C04SO3
 import SmoothProofs.C04SE2
@@ -30,6 +30,7 @@ import SmoothProofs.C04SEK3
 import SmoothProofs.C04Galilei
 import SmoothProofs.C04Bundle
 import SmoothProofs.C04SeriesSE3
+import SmoothProofs.C04TaylorExp
 import Mathlib.Analysis.Calculus.Deriv.Basic
 
 open Lin Scalar
@@ -372,6 +373,50 @@ theorem se2_dr_expinv_taylor_bound (a : Vec ℝ 3) (h0 : a 2 ≠ 0) (h1 : a 2 * 
     |(SE2.dr_expinv a) i j - (C04Alg.poly2 (SE2.ad a) (1 / 2) (C04SE2.Ae (a 2))) i j|
       ≤ (a 2) ^ 4 / 10000 * |(mmul (SE2.ad a) (SE2.ad a)) i j| :=
   C04Taylor.se2_dr_expinv_series_bound a h0 h1 i j
+
+/-! #### `dr_exp` itself in the series branch -/
+
+/-- SO3 `dr_exp`, series branch (`0 < θ² ≤ eps2`): entrywise within
+    `θ⁶·(9/322560)·|â| + θ⁶·(10/3265920)·|â²|` of the closed form `I + α·â + β·â²`
+    (whose series / integral characterisation is `so3_drExp_eq_series`). -/
+theorem so3_dr_exp_taylor_bound (a : Vec ℝ 3) (h0 : 0 < sqNorm a) (h1 : sqNorm a ≤ Scalar.eps2)
+    (i j : Fin 3) :
+    |(SO3.dr_exp a) i j - (C04Alg.poly2 (SO3.hat a) (C04SO3.αr (sqNorm a)) (C04SO3.βr (sqNorm a))) i j|
+      ≤ sqNorm a ^ 3 * (9 / 322560) * |(SO3.hat a) i j|
+        + sqNorm a ^ 3 * (10 / 3265920) * |(mmul (SO3.hat a) (SO3.hat a)) i j| :=
+  C04TaylorExp.so3_dr_exp_series_bound a h0 h1 i j
+
+/-- SE2 `dr_exp`, series branch (`θ = a_2 ≠ 0`, `θ² ≤ eps2`). -/
+theorem se2_dr_exp_taylor_bound (a : Vec ℝ 3) (h0 : a 2 ≠ 0) (h1 : a 2 * a 2 ≤ Scalar.eps2)
+    (i j : Fin 3) :
+    |(SE2.dr_exp a) i j - (C04Alg.poly2 (SE2.ad a)
+        ((Real.cos (Real.sqrt (a 2 * a 2)) - 1) / (a 2 * a 2))
+        (-((Real.sin (Real.sqrt (a 2 * a 2)) - Real.sqrt (a 2 * a 2))
+            / (a 2 * a 2 * Real.sqrt (a 2 * a 2))))) i j|
+      ≤ (a 2 * a 2) ^ 3 * (9 / 322560) * |(SE2.ad a) i j|
+        + (a 2 * a 2) ^ 3 * (10 / 3265920) * |(mmul (SE2.ad a) (SE2.ad a)) i j| :=
+  C04TaylorExp.se2_dr_exp_series_bound a h0 h1 i j
+
+/-- SE3: the `calculate_q` block (the diagonal blocks are `so3_dr_exp_taylor_bound`), series branch
+    vs `Qclosed` — the closed-coefficient formula, which the model returns in the closed branch
+    (`se3_calculate_q_closed`) and which is the (1,2) block of the power series there. -/
+theorem se3_calculate_q_taylor_bound (v w : Vec ℝ 3) (h0 : 0 < sqNorm w) (h1 : sqNorm w ≤ Scalar.eps2)
+    (i j : Fin 3) :
+    |(SE3.calculate_q v w) i j - (C04TaylorExp.Qclosed v w) i j|
+      ≤ sqNorm w ^ 3 * (10 / 3265920)
+          * |(-((mmul (SO3.hat w) (SO3.hat v)) i j) - (mmul (SO3.hat v) (SO3.hat w)) i j)
+              + dot v w * (SO3.hat w) i j|
+        + sqNorm w ^ 3 * (11 / 36288000)
+          * |((mmul (SO3.hat w) (mmul (SO3.hat w) (SO3.hat v))) i j
+                + (mmul (mmul (SO3.hat v) (SO3.hat w)) (SO3.hat w)) i j)
+              + dot v w * (3 * (SO3.hat w) i j - (mmul (SO3.hat w) (SO3.hat w)) i j)|
+        + sqNorm w ^ 3 * (12 / 439084800)
+          * |3 * dot v w * (mmul (SO3.hat w) (SO3.hat w)) i j| :=
+  C04TaylorExp.calculate_q_series_bound v w h0 h1 i j
+
+theorem se3_calculate_q_closed (v w : Vec ℝ 3) (h : Scalar.eps2 < sqNorm w) (i j : Fin 3) :
+    (SE3.calculate_q v w) i j = (C04TaylorExp.Qclosed v w) i j :=
+  C04TaylorExp.calculate_q_closed v w h i j
 
 /-- non-vacuity: `a = (0, 0, 1e-5)` -/
 example : (0:ℝ) < sqNorm (mk3 (0:ℝ) 0 (1 / 100000)) ∧ sqNorm (mk3 (0:ℝ) 0 (1 / 100000)) < Scalar.eps2 := by
